@@ -51,8 +51,10 @@ def _transfer_ok(repo, cls, meth, io_name, limit_attr, pause_name, fattr, lattr)
     me = F.mk('self', cls)
     FILE, LIM = F.mk('attr', me, fattr), F.mk('attr', me, lattr)
     calls = [e for e in ex.events if e.kind == 'call']
-    if any(e.kind in ('raise', 'setattr', 'setitem', 'unknown-stmt') for e in ex.events) or ex.loops:
+    if any(e.kind in ('raise', 'setitem', 'unknown-stmt') for e in ex.events) or ex.loops:
         return 'has other effects'
+    if any(e.kind == 'setattr' and not (e.obj is me and e.name not in (fattr, lattr)) for e in ex.events):
+        return 'has other effects'          # (bookkeeping attributes of the wrapper itself — counters — are not effects)
     clocks = [e for e in calls if e.fq() == 'time.perf_counter']
     ios = [e for e in calls if F.method_call(e, io_name) is FILE]
     pauses = [e for e in calls if F.method_call(e, pause_name) is LIM]
